@@ -24,6 +24,7 @@ import (
 	"fmt"
 	"os"
 	"path/filepath"
+	"runtime"
 	"strings"
 	"sync"
 	"testing"
@@ -56,6 +57,10 @@ func (a action) String() string {
 type caseSpec struct {
 	Actions []action `json:"actions"`
 	Why     string   `json:"why,omitempty"`
+	// replay of the scenarios that are not action schedules
+	Scenario string `json:"scenario,omitempty"`
+	DelayMs  int    `json:"delay_ms,omitempty"`
+	Wake     *bool  `json:"wake_while_held_before_disconnect,omitempty"`
 }
 
 type obs struct {
@@ -467,6 +472,138 @@ func agentDoPoll(t *testing.T, dir string, wakeDuringWindow bool) (o agentObs, p
 	return
 }
 
+// ---------------------------------------------------------------------------
+// Real-time lock-contention scenarios. A goroutine that waits for stateMu is
+// not "durably blocked" for synctest, so interleavings in which Poll() or
+// Wake() wait for the lock while the other sits in a callback cannot run in a
+// bubble. They need no timers (Poll is called directly, as the timer's
+// goroutine would), so they run in real time here, event driven, and are
+// judged by the property's text only: once a Wake() has returned nil (and no
+// Sleep() was asked for afterwards) the agent is AWAKE, the file says AWAKE,
+// no poll is scheduled and no poll callback runs any more.
+
+type contObs struct {
+	Scenario  string `json:"scenario"`
+	DelayMs   int    `json:"delay_ms"`
+	WakeErr   string `json:"wake_err"`
+	State     int    `json:"state_after"`
+	File      int    `json:"file_after"`
+	NextPoll  bool   `json:"poll_scheduled_after"`
+	Log       []int  `json:"log"`
+	LogAtWake int    `json:"log_len_when_wake_returned"`
+	TimedOut  string `json:"timed_out,omitempty"`
+}
+
+func contention(dir, scenario string, delayMs int) (o contObs) {
+	o.Scenario, o.DelayMs = scenario, delayMs
+	cfg := config.SleepConfig{Enabled: true, PollInterval: time.Hour, PollIntervalJitter: 0, PollDuration: time.Millisecond, PersistState: true}
+	os.Remove(filepath.Join(dir, "sleep_state.json"))
+	mgr := sleep.NewManager(cfg, dir, logging.NewLogger("error", "text"))
+	var mu sync.Mutex
+	var log []int
+	add := func(c int) {
+		mu.Lock()
+		log = append(log, c)
+		mu.Unlock()
+	}
+	wakeEntered, wakeGate := make(chan struct{}, 1), make(chan struct{})
+	endEntered, endGate := make(chan struct{}, 1), make(chan struct{})
+	blockEnd := scenario == "wake-during-poll-end"
+	mgr.SetCallbacks(sleep.Callbacks{
+		OnSleep: func() error { add(0); return nil },
+		OnWake: func() error {
+			add(1)
+			wakeEntered <- struct{}{}
+			<-wakeGate
+			return nil
+		},
+		OnPoll: func() error { add(2); return nil },
+		OnPollEnd: func() error {
+			add(3)
+			if blockEnd {
+				select {
+				case endEntered <- struct{}{}:
+				default:
+				}
+				<-endGate
+			}
+			return nil
+		},
+	})
+	wait := func(ch <-chan struct{}, what string, d time.Duration) bool {
+		select {
+		case <-ch:
+			return true
+		case <-time.After(d):
+			if o.TimedOut == "" {
+				o.TimedOut = what
+			}
+			return false
+		}
+	}
+	pollDone, wakeDone := make(chan struct{}), make(chan struct{})
+	var wakeErr error
+	if err := mgr.Sleep(); err != nil {
+		o.TimedOut = "sleep: " + err.Error()
+		return
+	}
+	switch scenario {
+	case "poll-while-wake-holds-lock":
+		go func() { wakeErr = mgr.Wake(); mu.Lock(); o.LogAtWake = len(log); mu.Unlock(); close(wakeDone) }()
+		if !wait(wakeEntered, "OnWake entry", 2*time.Second) {
+			close(wakeGate)
+			return
+		}
+		go func() { mgr.Poll(); close(pollDone) }() // the timer's goroutine, started just before Wake stopped the timer
+		time.Sleep(time.Duration(delayMs) * time.Millisecond)
+		for i := 0; i < 200; i++ {
+			runtimeGosched()
+		}
+		close(wakeGate)
+		wait(wakeDone, "Wake return", 2*time.Second)
+		wait(pollDone, "Poll return", 2*time.Second)
+	case "wake-during-poll-end":
+		go func() { mgr.Poll(); close(pollDone) }()
+		if !wait(endEntered, "OnPollEnd entry", 2*time.Second) {
+			close(endGate)
+			close(wakeGate)
+			return
+		}
+		go func() { wakeErr = mgr.Wake(); mu.Lock(); o.LogAtWake = len(log); mu.Unlock(); close(wakeDone) }()
+		// on the code as it is Wake now waits for the lock that Poll holds across OnPollEnd
+		select {
+		case <-wakeEntered:
+			close(wakeGate)
+			wait(wakeDone, "Wake return", 2*time.Second)
+			time.Sleep(time.Duration(delayMs) * time.Millisecond)
+			close(endGate)
+		case <-time.After(time.Duration(5+delayMs) * time.Millisecond):
+			close(endGate)
+			if wait(wakeEntered, "OnWake entry", 2*time.Second) {
+				close(wakeGate)
+			} else {
+				close(wakeGate)
+			}
+			wait(wakeDone, "Wake return", 2*time.Second)
+		}
+		wait(pollDone, "Poll return", 2*time.Second)
+	}
+	time.Sleep(5 * time.Millisecond)
+	if wakeErr != nil {
+		o.WakeErr = wakeErr.Error()
+	}
+	o.State = int(mgr.GetState())
+	o.File, _ = readPersist(filepath.Join(dir, "sleep_state.json"))
+	o.NextPoll = !mgr.GetStatus().NextPollTime.IsZero()
+	mu.Lock()
+	o.Log = append([]int(nil), log...)
+	mu.Unlock()
+	mgr.Stop()
+	return
+}
+
+func runtimeGosched() { runtime.Gosched() }
+
 var edgeOK = map[[2]int]bool{{0, 1}: true, {1, 2}: true, {2, 1}: true, {1, 0}: true, {2, 0}: true}
 
 // monitor: the text of C30 on the observations (no model).
@@ -656,13 +793,79 @@ func TestVerif(t *testing.T) {
 		return cs
 	}
 
+	runContention := func(sc string, d int) {
+		nDir++
+		dir := filepath.Join(base, fmt.Sprintf("cont%d", nDir))
+		os.MkdirAll(dir, 0o755)
+		var co contObs
+		if p := vh.Recover(func() { co = contention(dir, sc, d) }); p != "" {
+			c.Fail("panic", p, map[string]any{"scenario": sc, "delay_ms": d})
+			return
+		}
+		c.Case(fmt.Sprintf("contention/%s/%d", sc, d), true, co)
+		c.Count("contention:" + sc)
+		coq = append(coq, "[]")
+		if co.TimedOut != "" {
+			c.Fail("contention-scenario-stuck", fmt.Sprintf("%s: timed out waiting for %s", sc, co.TimedOut), co)
+			return
+		}
+		if co.WakeErr != "" {
+			return // the wake was refused; nothing is claimed
+		}
+		late := false
+		for _, e := range co.Log[co.LogAtWake:] {
+			if e == 2 || e == 3 {
+				late = true
+			}
+		}
+		if co.State != 0 || co.File != 0 || co.NextPoll || late {
+			sig := "wake-overtaken-by-concurrent-poll"
+			if sc == "wake-during-poll-end" {
+				sig = "wake-undone-by-poll-end"
+			}
+			c.Fail(sig, fmt.Sprintf("%s: Wake() returned nil, afterwards state=%d file=%d poll scheduled=%v callbacks %v (first %d before the wake returned)", sc, co.State, co.File, co.NextPoll, co.Log, co.LogAtWake), co)
+		}
+
+	}
+	runAgentDoPoll := func(wake bool) {
+		nDir++
+		dir := filepath.Join(base, fmt.Sprintf("agent%d", nDir))
+		os.MkdirAll(dir, 0o755)
+		ao, p := agentDoPoll(t, dir, wake)
+		rp := map[string]any{"scenario": "agent-dopoll", "wake_while_held_before_disconnect": wake, "observed": ao}
+		if p != "" {
+			c.Fail("panic", p, rp)
+			return
+		}
+		c.Case(fmt.Sprintf("agent-dopoll/%v", wake), true, rp)
+		c.Count("agent-dopoll")
+		coq = append(coq, "[]")
+		if !ao.Reached {
+			c.Fail("agent-dopoll-scenario-not-reached", "doPoll did not reach the scheduling point before DisconnectAll", rp)
+			return
+		}
+		if wake && ao.StateAfter == 0 && !ao.PausedAtWake && ao.PausedEnd {
+			c.Fail("agent-dopoll-disconnects-after-wake", "agent.doPoll read a non-awake state, Wake() completed (state AWAKE), then doPoll called DisconnectAll: peers dropped and reconnection paused while awake", rp)
+		}
+		if !wake && !ao.PausedEnd {
+			c.Fail("agent-dopoll-did-not-disconnect", "poll window ended while still sleeping but the peers were not disconnected", rp)
+		}
+
+	}
 	if c.Replay != "" {
 		var cs caseSpec
 		if err := c.ReadReplay(&cs); err != nil {
 			t.Fatal(err)
 		}
 		seen = map[string]bool{}
-		do(&cs)
+		switch {
+		case cs.Scenario == "agent-dopoll":
+			runAgentDoPoll(cs.Wake != nil && *cs.Wake)
+		case cs.Scenario != "":
+			runContention(cs.Scenario, cs.DelayMs)
+		default:
+			do(&cs)
+		}
 	} else {
 		// fixed witnesses first
 		for _, w := range []string{
@@ -698,27 +901,12 @@ func TestVerif(t *testing.T) {
 		}
 		// agent level: doPoll's unlocked "state read, then DisconnectAll" against a completing Wake
 		for _, wake := range []bool{true, false} {
-			nDir++
-			dir := filepath.Join(base, fmt.Sprintf("agent%d", nDir))
-			os.MkdirAll(dir, 0o755)
-			ao, p := agentDoPoll(t, dir, wake)
-			rp := map[string]any{"scenario": "agent-dopoll", "wake_while_held_before_disconnect": wake, "observed": ao}
-			if p != "" {
-				c.Fail("panic", p, rp)
-				continue
-			}
-			c.Case(fmt.Sprintf("agent-dopoll/%v", wake), true, rp)
-			c.Count("agent-dopoll")
-			coq = append(coq, "[]")
-			if !ao.Reached {
-				c.Fail("agent-dopoll-scenario-not-reached", "doPoll did not reach the scheduling point before DisconnectAll", rp)
-				continue
-			}
-			if wake && ao.StateAfter == 0 && !ao.PausedAtWake && ao.PausedEnd {
-				c.Fail("agent-dopoll-disconnects-after-wake", "agent.doPoll read a non-awake state, Wake() completed (state AWAKE), then doPoll called DisconnectAll: peers dropped and reconnection paused while awake", rp)
-			}
-			if !wake && !ao.PausedEnd {
-				c.Fail("agent-dopoll-did-not-disconnect", "poll window ended while still sleeping but the peers were not disconnected", rp)
+			runAgentDoPoll(wake)
+		}
+		// real-time lock-contention scenarios (monitor only)
+		for _, sc := range []string{"poll-while-wake-holds-lock", "wake-during-poll-end"} {
+			for _, d := range []int{0, 2, 6} {
+				runContention(sc, d)
 			}
 		}
 		// exhaustive enumeration of all schedules up to a length
